@@ -118,34 +118,82 @@ Ltac node := apply chk_node; [reflexivity | cbn [chk_fields]; fm; rewrite ?chk_r
 Lemma sbound_json_st b st j st' : sbound_json b st = Ok (j, st') -> True.
 Proof. trivial. Qed.
 
-Lemma tolist_chk : forall dims cs st j cs' st',
-  Forall (fun c : clo => forall st j st', c st = Ok (j, st') -> chk MState j = true) cs ->
-  tolist_state dims cs st = Ok (j, cs', st') ->
-  chk MState j = true /\ Forall (fun c : clo => forall st j st', c st = Ok (j, st') -> chk MState j = true) cs'.
+(* ---- list facts for the chunked cells of an object array ---- *)
+Lemma Forall_firstn {A} (Q : A -> Prop) k : forall l, Forall Q l -> Forall Q (firstn k l).
+Proof. induction k as [|k IH]; intros l H; [constructor|]. destruct H; cbn [firstn]; constructor; auto. Qed.
+Lemma Forall_skipn {A} (Q : A -> Prop) k : forall l, Forall Q l -> Forall Q (skipn k l).
+Proof. induction k as [|k IH]; intros l H; [exact H|]. destruct H; cbn [skipn]; [constructor|auto]. Qed.
+Lemma chunks_Forall {A} (Q : A -> Prop) k d : forall l, Forall Q l -> Forall (Forall Q) (chunks k d l).
 Proof.
-  induction dims as [|d dims IH]; intros cs st j cs' st' Hcs H; cbn [tolist_state] in H.
-  - destruct cs as [|c cs]; [discriminate|]. inv_bind H. inversion Hcs; subst. split; [eauto|assumption].
-  - destruct (fresh st) as [lid st0] eqn:Hf.
-    match type of H with context [(fix rep (n : nat) (cs : list clo) (st : dst) {struct n} := _)] =>
-      set (rep := (fix rep (n : nat) (cs : list clo) (st : dst) {struct n} : res (list json * list clo * dst) := _)) in H end.
-    assert (Hrep : forall n cs st js cs' st',
-              Forall (fun c : clo => forall st j st', c st = Ok (j, st') -> chk MState j = true) cs ->
-              rep n cs st = Ok (js, cs', st') ->
-              chk_all js = true /\ Forall (fun c : clo => forall st j st', c st = Ok (j, st') -> chk MState j = true) cs').
-    { induction n as [|n IHn]; intros cs1 st1 js cs1' st1' Hc Hr; cbn in Hr.
-      - injection Hr as <- <- <-. split; [reflexivity|assumption].
-      - destruct (tolist_state dims cs1 st1) as [[[j1 cs2] st2]|] eqn:E1; [|discriminate]. cbn [bind] in Hr.
-        destruct (rep n cs2 st2) as [[[js2 cs3] st3]|] eqn:E2; [|discriminate]. cbn [bind] in Hr.
-        injection Hr as <- <- <-.
-        destruct (IH _ _ _ _ _ Hc E1) as [Hj Hc2]. destruct (IHn _ _ _ _ _ Hc2 E2) as [Hjs Hc3].
-        split; [|assumption]. cbn [chk_all]. rewrite Hj, Hjs. reflexivity. }
-    destruct (rep d cs st0) as [[[items cs1] st1]|] eqn:E1; [|discriminate]. cbn [bind] in H.
-    injection H as <- <- <-. destruct (Hrep _ _ _ _ _ _ Hcs E1) as [Hi Hc].
-    split; [|assumption]. unfold list_state. node. rewrite chk_states_arr, Hi. reflexivity.
+  induction d as [|d IH]; intros l H; cbn [chunks]; constructor; [apply Forall_firstn; exact H|].
+  apply IH. apply Forall_skipn. exact H.
 Qed.
 
-Lemma closures_chk E l : Forall (P E) l ->
-  Forall (fun c : clo => forall st j st', c st = Ok (j, st') -> chk MState j = true) (map (fun x s0 => get_state E x s0) l).
+Lemma chunks_len_each {A} k d : forall (l : list A), length l = (d * k)%nat -> Forall (fun ch => length ch = k) (chunks k d l).
+Proof.
+  induction d as [|d IH]; intros l Hl; cbn [chunks]; constructor.
+  - rewrite firstn_length. cbn in Hl. lia.
+  - apply IH. rewrite skipn_length. cbn in Hl. lia.
+Qed.
+Lemma chunks_len_in {A} k d (l ch : list A) : length l = (d * k)%nat -> In ch (chunks k d l) -> length ch = k.
+Proof. intros Hl Hin. pose proof (chunks_len_each k d l Hl) as H. rewrite Forall_forall in H. apply H. exact Hin. Qed.
+Lemma in_chunks {A} k d : forall (l : list A) x, length l = (d * k)%nat -> In x l -> exists ch, In ch (chunks k d l) /\ In x ch.
+Proof.
+  induction d as [|d IH]; intros l x Hl Hx.
+  - destruct l; [destruct Hx|discriminate Hl].
+  - cbn [chunks]. rewrite <- (firstn_skipn k l) in Hx. apply in_app_or in Hx. destruct Hx as [Hx|Hx].
+    + exists (firstn k l). split; [left; reflexivity|exact Hx].
+    + destruct (IH (skipn k l) x) as [ch [H1 H2]]; [rewrite skipn_length; cbn in Hl; lia|exact Hx|].
+      exists ch. split; [right; exact H1|exact H2].
+Qed.
+(* the shape of an array that satisfies shape_okb, as naturals *)
+Lemma shape_ok_nat shape n : shape_okb shape n = true ->
+  Forall (fun d => (0 <= d)%Z) shape /\ map Z.of_nat (map Z.to_nat shape) = shape /\ n = nprod (map Z.to_nat shape).
+Proof.
+  unfold shape_okb. intros H. apply andb_prop in H. destruct H as [H1 H2]. apply Z.eqb_eq in H2.
+  assert (Hf : Forall (fun d => (0 <= d)%Z) shape).
+  { rewrite forallb_forall in H1. apply Forall_forall. intros d Hd. apply Z.leb_le. apply H1. exact Hd. }
+  split; [exact Hf|]. split.
+  - clear -Hf. induction Hf as [|d l Hd Hl IH]; [reflexivity|]. cbn [map]. rewrite IH, Z2Nat.id by exact Hd. reflexivity.
+  - apply Nat2Z.inj. rewrite <- H2. clear -Hf. induction Hf as [|d l Hd Hl IH]; [reflexivity|].
+    cbn [map nprod zprod]. rewrite Nat2Z.inj_mul, <- IH, Z2Nat.id by exact Hd. reflexivity.
+Qed.
+
+(* a property of closures that holds of the cells' closures holds of every closure tolist_state builds from them, provided
+   it holds of the closure that refuses and of the closure "a fresh list around these closures" *)
+Definition list_clo (cs : list clo) : clo :=
+  fun st => let (lid, st0) := fresh st in do (items, st1) <- run_all cs st0; Ok (list_state items lid, st1).
+Lemma tolist_state_cons d dims cs : tolist_state (d :: dims) cs = list_clo (map (tolist_state dims) (chunks (nprod dims) d cs)).
+Proof. reflexivity. Qed.
+Section CloInd.
+  Variable Pc : clo -> Prop.
+  Hypothesis Pdom : Pc (fun _ => Raise EDomain).
+  Hypothesis Plist : forall cs, Forall Pc cs -> Pc (list_clo cs).
+  Lemma tolist_clo_ind : forall dims cs, Forall Pc cs -> Pc (tolist_state dims cs).
+  Proof.
+    induction dims as [|d dims IH]; intros cs Hcs.
+    - cbn [tolist_state]. destruct cs as [|c [|c' cs]]; try exact Pdom. inversion Hcs; assumption.
+    - rewrite tolist_state_cons. apply Plist. apply Forall_forall. intros c Hc. apply in_map_iff in Hc. destruct Hc as [ch [<- Hch]].
+      apply IH. pose proof (chunks_Forall Pc (nprod dims) d cs Hcs) as Hf. rewrite Forall_forall in Hf. apply Hf. exact Hch.
+  Qed.
+  Lemma content_clos_ind dims cs : Forall Pc cs -> Forall Pc (content_clos dims cs).
+  Proof.
+    intros Hcs. destruct dims as [|d dims]; cbn [content_clos].
+    - constructor; [apply tolist_clo_ind; exact Hcs|constructor].
+    - apply Forall_forall. intros c Hc. apply in_map_iff in Hc. destruct Hc as [ch [<- Hch]].
+      apply tolist_clo_ind. pose proof (chunks_Forall Pc (nprod dims) d cs Hcs) as Hf. rewrite Forall_forall in Hf. apply Hf. exact Hch.
+  Qed.
+End CloInd.
+
+Definition chk_clo (c : clo) : Prop := forall st j st', c st = Ok (j, st') -> chk MState j = true.
+Lemma run_all_chk cs : Forall chk_clo cs -> forall st js st', run_all cs st = Ok (js, st') -> chk_all js = true.
+Proof.
+  induction 1 as [|c cs Hc Hcs IH]; intros st js st' H; cbn [run_all] in H.
+  - injection H as <- <-. reflexivity.
+  - inv_bind H. cbn [chk_all]. rewrite (Hc _ _ _ E), (IH _ _ _ E0). reflexivity.
+Qed.
+
+Lemma closures_chk E l : Forall (P E) l -> Forall chk_clo (map (fun x s0 => get_state E x s0) l).
 Proof. induction 1; cbn [map]; constructor; auto. Qed.
 
 Lemma shape_items_chk dims : forall st js st', shape_items dims st = (js, st') -> chk_all js = true.
@@ -164,22 +212,6 @@ Proof.
   node. rewrite chk_states_arr, (shape_items_chk _ _ _ _ E1). reflexivity.
 Qed.
 
-Lemma tolist_list_state : forall d dims cs st j cs' st',
-  tolist_state (d :: dims) cs st = Ok (j, cs', st') -> exists items lid, j = list_state items lid.
-Proof.
-  intros d dims cs st j cs' st' H. cbn [tolist_state] in H. destruct (fresh st) as [lid st0].
-  match type of H with bind ?r _ = _ => destruct r as [[[items cs1] st1]|]; [|discriminate] end.
-  cbn [bind] in H. injection H as <- <- <-. eauto.
-Qed.
-
-Lemma no_rank0_all l :
-  (fix all (l : list pval) : bool := match l with [] => true | x :: l' => no_rank0 x && all l' end) l = forallb no_rank0 l.
-Proof. induction l as [|x l IH]; [reflexivity|]. cbn [forallb]. rewrite <- IH. reflexivity. Qed.
-Lemma no_rank0_vals l :
-  (fix vals (l : list (dkey * pval)) : bool := match l with [] => true | (_, x) :: l' => no_rank0 x && vals l' end) l
-  = forallb (fun kv => no_rank0 (snd kv)) l.
-Proof. induction l as [|[k x] l IH]; [reflexivity|]. cbn [forallb snd]. rewrite <- IH. reflexivity. Qed.
-
 Lemma Forall_guard {A} (G : A -> bool) (Q : A -> Prop) l :
   Forall (fun x => G x = true -> Q x) l -> forallb G l = true -> Forall Q l.
 Proof.
@@ -187,19 +219,11 @@ Proof.
   constructor; auto.
 Qed.
 
-Lemma list_state_inv items lid : chk MState (list_state items lid) = true -> chk_all items = true.
+Theorem get_state_chk E : forall v, P E v.
 Proof.
-  intros H. unfold list_state, node_state in H. rewrite chk_state_obj in H. apply andb_prop in H. destruct H as [_ H].
-  match type of H with chk_fields ?l ?f = true =>
-    change (chk_fields l f) with (chk MStates (JArr items) && true) in H end.
-  rewrite andb_true_r, chk_states_arr in H. exact H.
-Qed.
-
-Theorem get_state_chk E : forall v, no_rank0 v = true -> P E v.
-Proof.
-  apply (pval_ind' (fun v => no_rank0 v = true -> P E v)).
+  apply (pval_ind' (P E)).
   - (* leaves *)
-    intros v Hl _ st j st' H. destruct v; try discriminate Hl; cbn [get_state] in H.
+    intros v Hl st j st' H. destruct v; try discriminate Hl; cbn [get_state] in H.
     + injection H as <- <-. unfold json_state. node. reflexivity.
     + injection H as <- <-. unfold json_state. node. reflexivity.
     + destruct (fresh_uuid st). injection H as <- <-. destruct ba; node; reflexivity.
@@ -212,59 +236,59 @@ Proof.
     + injection H as <- <-. unfold type_state. node. reflexivity.
     + discriminate.
   - (* PSeq *)
-    intros q id m c nt l IH G st j st' H. cbn [get_state] in H. cbn [no_rank0] in G. rewrite no_rank0_all in G.
-    inv_bind H. pose proof (states_chk E l (Forall_guard _ _ _ IH G) _ _ _ E0) as Hs.
+    intros q id m c nt l IH st j st' H. cbn [get_state] in H.
+    inv_bind H. pose proof (states_chk E l IH _ _ _ E0) as Hs.
     destruct q; node; rewrite chk_states_arr, Hs; reflexivity.
   - (* PDict *)
-    intros id m c l IH G st j st' H. cbn [get_state] in H. cbn [no_rank0] in G. rewrite no_rank0_vals in G.
+    intros id m c l IH st j st' H. cbn [get_state] in H.
     destruct (fresh st) as [ktid st0]. inv_bind H. unfold dict_state, list_state.
-    pose proof (content_chk E l (Forall_guard (fun kv => no_rank0 (snd kv)) (fun kv => P E (snd kv)) _ IH G) [] _ _ _ eq_refl E1) as Hc.
+    pose proof (content_chk E l IH [] _ _ _ eq_refl E1) as Hc.
     node. rewrite chk_dict_obj, Hc. cbn [andb]. rewrite andb_true_r. node.
     rewrite chk_states_arr, (key_types_chk E _ _ E0). reflexivity.
   - (* PDefDict *)
-    intros id m c f l IHf IH G st j st' H. cbn [get_state] in H. cbn [no_rank0] in G. rewrite no_rank0_vals in G.
-    apply andb_prop in G. destruct G as [Gf G].
+    intros id m c f l IHf IH st j st' H. cbn [get_state] in H.
     destruct (fresh st) as [did st0]. destruct (fresh st0) as [ktid st0']. inv_bind H. unfold dict_state, list_state.
-    pose proof (content_chk E l (Forall_guard (fun kv => no_rank0 (snd kv)) (fun kv => P E (snd kv)) _ IH G) [] _ _ _ eq_refl E1) as Hc.
-    node. rewrite chk_dict_obj. cbn [chk_vals]. rewrite (IHf Gf _ _ _ E2). rewrite !andb_true_r.
+    pose proof (content_chk E l IH [] _ _ _ eq_refl E1) as Hc.
+    node. rewrite chk_dict_obj. cbn [chk_vals]. rewrite (IHf _ _ _ E2). rewrite !andb_true_r.
     node. rewrite chk_dict_obj, Hc. cbn [andb]. rewrite andb_true_r. node.
     rewrite chk_states_arr, (key_types_chk E _ _ E0). reflexivity.
-  - (* PObjArr *)
-    intros id m c sh l IH G st j st' H. cbn [get_state] in H. cbn [no_rank0] in G.
-    destruct sh as [|d sh]; [discriminate|]. rewrite no_rank0_all in G.
-    destruct (tolist_state _ _ _) as [[[ser cs'] st1]|] eqn:E0; [|discriminate]. cbn [bind] in H.
-    cbn [map] in E0. destruct (tolist_chk _ _ _ _ _ _ (closures_chk E l (Forall_guard _ _ _ IH G)) E0) as [Hser _].
-    destruct (tolist_list_state _ _ _ _ _ _ _ E0) as [items [lid ->]].
-    change (jindex (list_state items lid) (K "content")) with (Ok (A:=json) (JArr items)) in H. cbn [bind] in H.
-    destruct (shape_state (d :: sh) st1) as [shj st2] eqn:E1. injection H as <- <-.
-    apply list_state_inv in Hser.
-    node. rewrite (shape_state_chk _ _ _ _ E1). rewrite chk_nd_arr, Hser. reflexivity.
+  - (* PObjArr: every rank; the content is the list of the states of obj.tolist()'s items (rank 0: of [cell]) *)
+    intros id m c sh l IH st j st' H. cbn [get_state] in H.
+    destruct (shape_okb sh (length l)); [|discriminate H].
+    destruct (fresh st) as [lid st0].
+    destruct (run_all _ st0) as [[items st1]|] eqn:E0; [|discriminate H]. cbn [bind] in H.
+    destruct (shape_state sh st1) as [shj st2] eqn:E1. injection H as <- <-.
+    assert (Hcl : Forall chk_clo (content_clos (map Z.to_nat sh) (map (fun x s0 => get_state E x s0) l))).
+    { apply content_clos_ind; [intros st3 j3 st3' H3; discriminate H3| |apply closures_chk; exact IH].
+      intros cs Hcs st3 j3 st3' H3. unfold list_clo in H3. destruct (fresh st3) as [lid3 st4].
+      destruct (run_all cs st4) as [[items3 st5]|] eqn:E3; [|discriminate H3]. cbn [bind] in H3. injection H3 as <- <-.
+      unfold list_state. node. rewrite chk_states_arr, (run_all_chk cs Hcs _ _ _ E3). reflexivity. }
+    node. rewrite (shape_state_chk _ _ _ _ E1). rewrite chk_nd_arr, (run_all_chk _ Hcl _ _ _ E0). reflexivity.
   - (* PMasked *)
-    intros id m c d k IHd IHk G st j st' H. cbn [get_state] in H. cbn [no_rank0] in G. apply andb_prop in G. destruct G as [Gd Gk].
-    inv_bind H. node. rewrite chk_dict_obj. cbn [chk_vals]. rewrite (IHd Gd _ _ _ E0), (IHk Gk _ _ _ E1). reflexivity.
+    intros id m c d k IHd IHk st j st' H. cbn [get_state] in H.
+    inv_bind H. node. rewrite chk_dict_obj. cbn [chk_vals]. rewrite (IHd _ _ _ E0), (IHk _ _ _ E1). reflexivity.
   - (* PRandState *)
-    intros id m c x IHx G st j st' H. cbn [get_state] in H. cbn [no_rank0] in G.
-    inv_bind H. node. rewrite (IHx G _ _ _ E0). reflexivity.
+    intros id m c x IHx st j st' H. cbn [get_state] in H.
+    inv_bind H. node. rewrite (IHx _ _ _ E0). reflexivity.
   - (* PRandGen *)
-    intros id m c x y IHx IHy G st j st' H. cbn [get_state] in H. cbn [no_rank0] in G. apply andb_prop in G. destruct G as [Gx Gy].
-    inv_bind H. node. rewrite chk_dict_obj. cbn [chk_vals]. rewrite (IHx Gx _ _ _ E0), (IHy Gy _ _ _ E1). reflexivity.
+    intros id m c x y IHx IHy st j st' H. cbn [get_state] in H.
+    inv_bind H. node. rewrite chk_dict_obj. cbn [chk_vals]. rewrite (IHx _ _ _ E0), (IHy _ _ _ E1). reflexivity.
   - (* PPartial *)
-    intros id m c f a k n IHf IHa IHk IHn G st j st' H. cbn [get_state] in H. cbn [no_rank0] in G.
-    apply andb_prop in G. destruct G as [G Gn]. apply andb_prop in G. destruct G as [G Gk]. apply andb_prop in G. destruct G as [Gf Ga].
+    intros id m c f a k n IHf IHa IHk IHn st j st' H. cbn [get_state] in H.
     inv_bind H. node. rewrite chk_dict_obj. cbn [chk_vals].
-    rewrite (IHf Gf _ _ _ E0), (IHa Ga _ _ _ E1), (IHk Gk _ _ _ E2), (IHn Gn _ _ _ E3). reflexivity.
+    rewrite (IHf _ _ _ E0), (IHa _ _ _ E1), (IHk _ _ _ E2), (IHn _ _ _ E3). reflexivity.
   - (* POpFunc *)
-    intros id c a IHa G st j st' H. cbn [get_state] in H. cbn [no_rank0] in G.
-    inv_bind H. node. rewrite (IHa G _ _ _ E0). reflexivity.
+    intros id c a IHa st j st' H. cbn [get_state] in H.
+    inv_bind H. node. rewrite (IHa _ _ _ E0). reflexivity.
   - (* PMethod *)
-    intros id m f x IHx G st j st' H. cbn [get_state] in H. cbn [no_rank0] in G.
+    intros id m f x IHx st j st' H. cbn [get_state] in H.
     inv_bind H. node. cbn [chk]. change (pstr_eqb (K "func") (s "obj")) with false. change (pstr_eqb (K "obj") (s "obj")) with true.
-    cbn iota. rewrite (IHx G _ _ _ E0). reflexivity.
+    cbn iota. rewrite (IHx _ _ _ E0). reflexivity.
   - (* PObj *)
-    intros id m c hk h ok x _ IHx G st j st' H. cbn [get_state] in H. cbn [no_rank0] in G.
+    intros id m c hk h ok x _ IHx st j st' H. cbn [get_state] in H.
     destruct ok; inv_bind H.
-    + node. rewrite (IHx G _ _ _ E0). reflexivity.
-    + node. rewrite (IHx G _ _ _ E0). reflexivity.
+    + node. rewrite (IHx _ _ _ E0). reflexivity.
+    + node. rewrite (IHx _ _ _ E0). reflexivity.
     + node. reflexivity.
 Qed.
 
@@ -297,12 +321,12 @@ Proof.
 Qed.
 
 Theorem dumps_schema_wf E base v a :
-  dumps_model E base v = Ok a -> no_rank0 v = true ->
+  dumps_model E base v = Ok a ->
   schema_wf (dn_cur E) (dn_version E) (a_schema a) = true.
 Proof.
-  unfold dumps_model. intros H G.
+  unfold dumps_model. intros H.
   destruct (get_state E v (init_dst base)) as [[j st]|] eqn:E0; [|discriminate]. cbn [bind] in H.
-  pose proof (get_state_chk E v G _ _ _ E0) as Hc.
+  pose proof (get_state_chk E v _ _ _ E0) as Hc.
   destruct (root_fields _ _ _ _ _ E0) as [kv [-> [Hp Hv]]].
   destruct (d_late st); [discriminate|]. injection H as <-. cbn [a_schema].
   unfold schema_wf. rewrite chk_state_obj in Hc. apply andb_prop in Hc. destruct Hc as [H4 Hf].
